@@ -48,8 +48,11 @@ def light_zoo():
     ]
 
 
-def build_specs(ctx):
+def build_specs(ctx, workdir):
     from skops.io import dumps, get_untrusted_types
+
+    from .. import ioarch, valuecheck
+    from .c08 import downgrade
 
     from .. import card as cardmod
 
@@ -73,6 +76,38 @@ def build_specs(ctx):
         if untrusted:
             specs.append(("loads", data, [])); names.append(f"loads-refused:{name}")
             specs.append(("visualize", data, "untrusted", None)); names.append(f"visualize-untrusted:{name}")
+    # archives in the layouts of older protocols: their loaders are part of "the registries are filled once at import"
+    for name, o in objs:
+        if name not in ("ft", "gen", "dict", "partial", "pipe"):
+            continue
+        data = dumps(o)
+        schema, members, _ = valuecheck.archive_parts(data)
+        for target in (0, 1):
+            s2, _ = downgrade(schema, target)
+            d2 = ioarch.make_zip(s2, members)
+            try:
+                unt = get_untrusted_types(data=d2)
+            except Exception:
+                unt = []
+            specs.append(("loads", d2, unt)); names.append(f"loads-proto{target}:{name}")
+            specs.append(("untrusted", d2)); names.append(f"untrusted-proto{target}:{name}")
+            specs.append(("visualize", d2, "all", unt)); names.append(f"visualize-proto{target}:{name}")
+    # cards built from archive files (same file used by several cards, with and without a trusted list)
+    from sklearn.linear_model import LogisticRegression
+    from sklearn.pipeline import Pipeline
+    from sklearn.preprocessing import FunctionTransformer
+
+    from ..objgen import U
+
+    files = {"plain.skops": LogisticRegression(C=2.0), "untrusted.skops": Pipeline([("f", FunctionTransformer(U.module_function)), ("c", LogisticRegression())])}
+    for fn, est in files.items():
+        path = os.path.join(workdir, fn)
+        with open(path, "wb") as f:
+            f.write(dumps(est))
+        unt = get_untrusted_types(file=path)
+        specs.append(("card-file", path, unt, None)); names.append(f"card-file-trusted:{fn}")
+        specs.append(("card-file", path, None, None)); names.append(f"card-file-default:{fn}")
+        specs.append(("card-file", path, unt, {"c__C": 7.5} if "untrusted" in fn else {"C": 7.5})); names.append(f"card-file-mutating:{fn}")
     for i in range(ctx.budget(6, 40)):
         hist, _ = cardmod.gen_history(ctx.rng, ctx.rng.randint(4, 14))
         specs.append(("card", hist)); names.append(f"card-history:{i}")
@@ -149,7 +184,8 @@ def run(ctx):
     t0 = time.time()
     lean_ok = ctx.build(required_theorems=REQUIRED)
     facts = json.loads((VERIF / "generated" / "frame.json").read_text())
-    specs, names = build_specs(ctx)
+    workdir = tempfile.mkdtemp(prefix="verif-c20-files-")
+    specs, names = build_specs(ctx, workdir)
     ofails, mism = [], []
     reference = fresh_process_results(specs)
     bad = [(n, r) for n, r in zip(names, reference) if r[0] == "child-failed"]
@@ -246,6 +282,9 @@ def run(ctx):
     if broken_facts and not ofails:
         sites = {k: v for k, v in facts["sites"].items() if v}
         mism.append(dict(what=f"frame facts no longer hold: {broken_facts}; sites: {json.dumps(sites)[:600]}"))
+    import shutil
+
+    shutil.rmtree(workdir, ignore_errors=True)
     from ..iocheck import conclude
 
     conclude(ctx, lean_ok, mism, ofails, "frame/C20")
